@@ -197,7 +197,11 @@ class Gen:
         else:
             item = v
         sub = self.spec(item, depth - 1)
-        return {'k': 'list', 'xs': [sub]}
+        xs = [sub]
+        if r.random() < 0.2:
+            # a list spec with further elements: only the first one is the sub-spec
+            xs += [self.leaf(item) for _ in range(r.randint(1, 2))]
+        return {'k': 'list', 'xs': xs}
 
     def chain(self, v, depth):
         r = self.rng
@@ -328,7 +332,7 @@ class Gen:
             j['dflt_factory'] = ['f%d' % self.nfn, r.choice(['mk_list', 'mk_zero'])]
         q = r.random()
         if q < 0.15:
-            j['skip'] = {'k': 'pred', 'name': self.fn()['name'], 'kind': r.choice(['is_none', 'truthy', 'is_int'])}
+            j['skip'] = {'k': 'pred', 'name': self.fn()['name'], 'kind': r.choice(['is_none', 'truthy', 'is_int', 'raise_ve', 'inc'])}
         elif q < 0.3:
             j['skip'] = {'k': 'anyOf', 'vs': [jv(x) for x in r.sample([None, 0, '', 1, 'x'], 2)]}
         elif q < 0.4:
@@ -431,12 +435,26 @@ class Gen:
     def s_call(self, v, depth):
         r = self.rng
         f = self.fn('pack')
-        if r.random() < 0.15:
+        q = r.random()
+        if q < 0.15:
             f = {'k': 'specW', 's': {'k': 'val', 'v': {'fn': [f['name'], 'pack']}}, 'scope': []}
+        elif q < 0.3:
+            # an EFFECTFUL func spec (a logged callable, then the function): func is evaluated before args / kwargs
+            f = {'k': 'specW', 's': {'k': 'tuple', 'xs': [self.fn('id'), {'k': 'val', 'v': {'fn': [f['name'], 'pack']}}]}, 'scope': []}
+        elif q < 0.38:
+            f = {'k': 'ty', 'name': r.choice(['list', 'tuple', 'bool', 'int'])}     # a class as callee
         args = {'k': 'tuple' if r.random() < 0.7 else 'list',
                 'xs': [self.argspec(v, depth) for _ in range(r.randint(0, 3))]}
         kwargs = {'k': 'dict', 'es': [[{'k': 'str', 's': k}, self.argspec(v, depth)]
                                       for k in r.sample(['u', 'w'], r.randint(0, 2))]}
+        if r.random() < 0.05:
+            kwargs['es'].append([{'k': 'lit', 'v': jv(1)}, {'k': 'lit', 'v': jv(2)}])     # a non-str keyword: TypeError
+        if f['k'] == 'ty':
+            args = {'k': 'tuple', 'xs': [self.argspec(v, depth)] if r.random() < 0.85 else []}
+            kwargs = {'k': 'dict', 'es': []}
+        elif r.random() < 0.1:
+            # effectful argument specs: evaluation order func, args, kwargs shows in the call log
+            args = {'k': 'tuple', 'xs': [{'k': 'specW', 's': self.fn(self.fn_for(v)), 'scope': []} for _ in range(r.randint(1, 2))]}
         return {'k': 'call', 'func': f, 'args': args, 'kwargs': kwargs}
 
     def s_invoke(self, v, depth):
@@ -446,6 +464,10 @@ class Gen:
         if r.random() < 0.15:
             func_is_spec = True
             f = {'k': 'specW', 's': {'k': 'val', 'v': {'fn': [f['name'], 'pack']}}, 'scope': []}
+        if not func_is_spec and r.random() < 0.08:
+            f = {'k': 'ty', 'name': r.choice(['list', 'tuple', 'bool'])}
+            return {'k': 'invoke', 'func': f, 'func_is_spec': False,
+                    'blocks': [{'op': 'S', 'pos': [self.spec(v, depth - 1)], 'kw': []}]}
         blocks = []
         for _ in range(r.randint(0, 3)):
             op = r.choice(['C', 'S', 'S', '*'])
@@ -489,7 +511,12 @@ class Gen:
         p = r.random()
         n = r.choice(self.POOL)
         if p < 0.6:
-            return {'k': 'sRead', 'name': n, 'steps': [], 'item': r.random() < 0.4}
+            steps = []
+            if r.random() < 0.25:
+                # S.k[0] / S.k['a'] / S.k + 1 ...: further T steps applied to the bound value
+                steps = [r.choice([['[', jv(0)], ['[', jv('a')], ['+', jv(1)], ['*', jv(2)], ['[', jv(-1)]])
+                         for _ in range(r.choice([1, 1, 2]))]
+            return {'k': 'sRead', 'name': n, 'steps': steps, 'item': r.random() < 0.4}
         if p < 0.8:
             return {'k': 'sGlobRead', 'name': n}
         return {'k': 'sVarRead', 'var': 'vv', 'name': n}
@@ -764,6 +791,148 @@ class Gen:
                 self.nfn += 1
                 j['pm'] = ['f%d' % self.nfn, r.choice(['mk_zero', 'mk_list', 'mk_zero', 'raise_glom'])]
         return j
+
+    # ------------------------------------------------------------ reused fragments under several Ref definitions
+    def sharedref_case(self):
+        """ONE bare Ref(name) object -- inside a reused fragment such as ('next', Ref('fmt')) or
+        ('children', [Ref('tree')]) -- reached under two or three different Ref(name, body) definitions: in one
+        dict / tuple / list spec, or in consecutive calls of one process (`before`).  Ref(name) resolves to the
+        nearest enclosing definition *each time it is evaluated*.  Returns (spec, shared table, before, target)."""
+        r = self.rng
+        name = r.choice(['r1', 'fmt', 'tree'])
+        NONE = {'k': 'lit', 'v': None}
+        if r.random() < 0.5:
+            # a chain of records linked by 'next'
+            def rec(d):
+                t = {'v': d, 'w': 'w%d' % d, 'u': [d]}
+                if d < r.randint(1, 3):
+                    t['next'] = rec(d + 1)
+                return t
+            target = rec(1)
+            frag = {'k': 'coalesce', 'subs': [{'k': 'tuple', 'xs': [{'k': 'str', 's': 'next'}, {'k': 'ref', 'name': name, 'sub': None}]}],
+                    'dflt': NONE, 'dflt_factory': None, 'skip': None, 'skip_exc': ['GlomError']}
+            fields = ['v', 'w', 'u']
+        else:
+            # a tree of records with 'children'
+            def rec(d):
+                return {'name': 'n%d' % d, 'size': d, 'children': [rec(d + 1) for _ in range(r.randint(0, 2 if d < 3 else 0))]}
+            target = rec(1)
+            frag = {'k': 'tuple', 'xs': [{'k': 'str', 's': 'children'}, {'k': 'list', 'xs': [{'k': 'ref', 'name': name, 'sub': None}]}]}
+            fields = ['name', 'size']
+        shared = {'1': frag}
+        use = {'k': 'shared', 'id': 1}
+        defs = []
+        for f in r.sample(fields, min(len(fields), r.randint(2, 3))):
+            body = {'k': 'dict', 'es': [[{'k': 'str', 's': f}, r.choice([{'k': 'str', 's': f}, {'k': 't', 'steps': [['[', jv(f)]]}])],
+                                        [{'k': 'str', 's': 'rest'}, use]]}
+            if r.random() < 0.3:
+                body = {'k': 'tuple', 'xs': [{'k': 't', 'steps': []}, body]}
+            defs.append({'k': 'ref', 'name': name, 'sub': body})
+        q = r.random()
+        before = []
+        if q < 0.35:
+            spec = {'k': 'dict', 'es': [[{'k': 'str', 's': 'd%d' % i}, d] for i, d in enumerate(defs)]}
+        elif q < 0.5:
+            spec = {'k': 'tuple', 'xs': [{'k': 'dict', 'es': [[{'k': 'str', 's': 'a'}, defs[0]], [{'k': 'str', 's': 'b'}, {'k': 't', 'steps': []}]]},
+                                         {'k': 'dict', 'es': [[{'k': 'str', 's': 'a'}, {'k': 't', 'steps': [['[', jv('a')]]}],
+                                                              [{'k': 'str', 's': 'b'}, {'k': 'tuple', 'xs': [{'k': 'str', 's': 'b'}, defs[1]]}]]}]}
+        elif q < 0.6:
+            spec = {'k': 'call', 'func': self.fn('pack'), 'args': {'k': 'tuple', 'xs': [{'k': 'specW', 's': d, 'scope': []} for d in defs]},
+                    'kwargs': {'k': 'dict', 'es': []}}
+        else:
+            # a history: the other definitions were evaluated by earlier calls in the same process
+            before, spec = defs[:-1], defs[-1]
+            if r.random() < 0.4:
+                before = before + [defs[-1]] + before[:1]
+        return spec, shared, before, target
+
+    # ------------------------------------------------------------ Match dicts with Optional / Required keys (C07)
+    def matchopt_cases(self):
+        """Match({...}) mixing Optional(k) / Required(k) / literal keys with ONE binder key (A.k, S(k=..), Let,
+        Required(A.k)) and values that read the bound name (bare or under Or(.., Val('unbound'))), evaluated for
+        EVERY order of the target's items: a key passes its bindings to its own value only, whichever entries
+        were matched before."""
+        import itertools
+        r = self.rng
+        name = r.choice(self.POOL)
+        keys = r.sample(['unit', 'temp', 'id', 'zz'], r.randint(2, 3))
+        items = [(k, r.choice([21, 'C', 0, None])) for k in keys]
+        rd = {'k': 'sRead', 'name': name, 'steps': [], 'item': r.random() < 0.4}
+
+        def value():
+            q = r.random()
+            if q < 0.45:
+                return {'k': 'or', 'cs': [rd, {'k': 'val', 'v': jv('unbound')}], 'dflt': None}
+            if q < 0.6:
+                return {'k': 'coalesce', 'subs': [rd], 'dflt': {'k': 'lit', 'v': jv('unbound')}, 'dflt_factory': None,
+                        'skip': None, 'skip_exc': ['GlomError']}
+            if q < 0.7:
+                return {'k': 'aBind', 'name': name}                 # a binder as the VALUE of an entry
+            return r.choice([{'k': 'ty', 'name': 'object'}, {'k': 't', 'steps': []}])
+        es = []
+        have_req = False
+        for k in keys[:-1]:
+            q = r.random()
+            # (Required wraps a non-constant key only: an == constant is required anyway and glom rejects the wrapper;
+            #  at most one Required key of a shape per dict: the model recognises a key object by its shape)
+            if q < 0.55:
+                kj = {'k': 'optKey', 'v': jv(k)}
+            elif q < 0.65 and not have_req:
+                kj, have_req = {'k': 'reqKey', 's': {'k': 'ty', 'name': 'str'}}, True
+            else:
+                kj = {'k': 'str', 's': k}
+            es.append([kj, value()])
+        q = r.random()
+        if q < 0.5:
+            bkey = {'k': 'aBind', 'name': name}
+        elif q < 0.7:
+            bkey = {'k': 'sBind', 'bs': [[name, r.choice([{'k': 'lit', 'v': jv('kb')}, {'k': 't', 'steps': []}])]]}
+        elif q < 0.85:
+            bkey = {'k': 'reqKey', 's': {'k': 'aBind', 'name': name}}
+        else:
+            bkey = {'k': 'let', 'bs': [[name, {'k': 't', 'steps': []}]]}
+        es.append([bkey, r.choice([{'k': 'ty', 'name': 'object'}, value()])])
+        if r.random() < 0.5:
+            r.shuffle(es)
+        spec = {'k': 'match', 's': {'k': 'dict', 'es': es}, 'dflt': None if r.random() < 0.8 else {'k': 'lit', 'v': jv('md')}}
+        scope = [[name, jv('caller')]] if r.random() < 0.3 else []
+        for perm in itertools.permutations(items):
+            yield {'spec': spec, 'target': ic.enc(dict(perm)), 'scope': scope}
+
+    # ------------------------------------------------------------ nested evaluations from the running scope (C07)
+    def s_reenter(self, v, depth):
+        """a name bound at two or three depths (caller scope, S(name=..) / A.name / Spec(scope=) steps of enclosing
+        chains) and a reader inside a nested top-level evaluation started from the running scope --
+        glom(t, spec, scope=scope) / Spec(spec).glom(t, scope=scope), as First and Iter().first(key) do -- :
+        the innermost binding wins there too"""
+        r = self.rng
+        name = r.choice(self.POOL)
+        T0 = {'k': 't', 'steps': []}
+        rd = {'k': 'sRead', 'name': name, 'steps': [], 'item': r.random() < 0.4}
+        unb = {'k': 'coalesce', 'subs': [rd], 'dflt': {'k': 'lit', 'v': jv('unbound')}, 'dflt_factory': None,
+               'skip': None, 'skip_exc': ['GlomError']}
+
+        def binder(tag):
+            q = r.random()
+            if q < 0.5:
+                return {'k': 'sBind', 'bs': [[name, {'k': 'lit', 'v': jv(tag)}]]}
+            if q < 0.7:
+                return {'k': 'tuple', 'xs': [{'k': 'val', 'v': jv(tag)}, {'k': 'aBind', 'name': name}]} if False else {'k': 'aBind', 'name': name}
+            if q < 0.85:
+                return {'k': 'specW', 's': T0, 'scope': [[name, jv(tag)]]}
+            return {'k': 'let', 'bs': [[name, {'k': 'val', 'v': jv(tag)}]]}
+        inner = r.choice([rd, unb, {'k': 'dict', 'es': [[{'k': 'str', 's': 'seen'}, unb]]},
+                          {'k': 'tuple', 'xs': [binder('nested'), unb]}])
+        re_ = {'k': 'reenter', 'via_spec': r.random() < 0.5, 's': inner}
+        if r.random() < 0.25:
+            re_ = {'k': 'reenter', 'via_spec': r.random() < 0.5, 's': {'k': 'tuple', 'xs': [T0, re_]}}     # twice nested
+        xs = [binder('b%d' % i) for i in range(r.randint(1, 3))]
+        if r.random() < 0.4:
+            xs.insert(r.randrange(len(xs) + 1), T0)
+        body = {'k': r.choice(['tuple', 'pipe']), 'xs': xs + [r.choice([re_, {'k': 'dict', 'es': [[{'k': 'str', 's': 'in'}, re_], [{'k': 'str', 's': 'out'}, unb]]}])]}
+        if r.random() < 0.3:
+            body = {'k': 'specW', 's': body, 'scope': [[name, jv('spec-scope')]]}
+        return body
 
     def s_and(self, v, depth):
         r = self.rng
@@ -1072,6 +1241,11 @@ class Gen:
                 ks = r.sample(['x', 'y', 1], r.randint(0, 2))
                 return {'k': 'dict', 'es': [[{'k': 'str', 's': k} if isinstance(k, str) else {'k': 'lit', 'v': jv(k)},
                                              shape(d - 1)] for k in ks]}
+            if r.random() < 0.5:
+                # T / access leaves inside a set / frozenset: evaluated, the results must be hashable
+                leaves = [r.choice([{'k': 't', 'steps': []}, self.access(v), {'k': 'val', 'v': jv(5)}])
+                          for _ in range(r.randint(1, 2))]
+                return {'k': r.choice(['set', 'fset']), 'xs': leaves[:1]}
             return {'k': r.choice(['set', 'fset']), 'xs': [{'k': 'lit', 'v': jv(x)} for x in r.sample([1, 2, 'a'], r.randint(0, 2))]}
         return {'k': 'fill', 's': shape(depth)}
 
@@ -1088,7 +1262,9 @@ class Gen:
                 return leaf()
             if p < 0.42:
                 # an empty mutable container (top-level or nested): rebuilt like any other
-                return r.choice([{'k': 'list', 'xs': []}, {'k': 'dict', 'es': []}, {'k': 'set', 'xs': []}])
+                return r.choice([{'k': 'list', 'xs': []}, {'k': 'dict', 'es': []}, {'k': 'set', 'xs': []},
+                                 {'k': 'fset', 'xs': [{'k': 't', 'steps': [['[', jv('id')]]}]},
+                                 {'k': 'set', 'xs': [{'k': 't', 'steps': [['[', jv('id')]]}]}])
             if p < 0.6:
                 return {'k': 'list', 'xs': [cont(d - 1) for _ in range(r.randint(1, 3))]}
             if p < 0.8:
